@@ -1,6 +1,7 @@
 # Sizing and claim for C20 (concurrent use needs no locking; ThreadSanitizer build)
 SPEC = {
     "tsan": True,
+    "ldflags": ["-Wl,--wrap=_Znam", "-Wl,--wrap=_Znwm"],      # operator new[] / new called from the harness object (string_theory is header-only) go through the per-thread fault hook
     "quick": {"rc_cases": 4000, "rc_procs": 10, "enum": False},
     "thorough": {"rc_cases": 6000, "rc_procs": 8, "enum": False, "fuzz_secs": 0},
     "assumptions": [
